@@ -135,7 +135,10 @@ def correctable(item):
     code = codes.build(cname, tuple(size))
     n = code.n
     em = D.make_noise('depol')
-    dec = DECODERS[dname](code, em, 0.1)
+    dkw = {}
+    if isinstance(sweep, dict):
+        dkw, sweep = dict(sweep), True       # sweep-match built with non-default options
+    dec = DECODERS[dname](code, em, 0.1, **dkw)
     if isinstance(sweep, tuple) and sweep[0] == 'clustered':
         errs = clustered_sector_errors(code, t, tier)[sweep[1]::sweep[2]]
         complete = False
@@ -169,7 +172,8 @@ def correctable(item):
     rec.update({'kind': 'correctable', 'obs': obs, 't': int(t), 'complete': complete,
                 'xchecks': [], 'zchecks': [], 'wx': [], 'wz': [], 'slack': 0, 'decodes': [],
                 '_size': list(size),
-                '_label': f'{dname}@{cname}{tuple(size)} t={t}' + ('' if complete else ' (sampled)'),
+                '_label': f'{dname}@{cname}{tuple(size)} t={t}' + ('' if complete else ' (sampled)')
+                          + (f' {dkw}' if dkw else ''),
                 '_cost': len(obs) * n * 2})
     return rec
 
@@ -226,6 +230,10 @@ def domain(tier):
         if codes.qubit_count('RotatedPlanar3DCode', size) <= 150 and \
                 codes.build('RotatedPlanar3DCode', size).d >= 3 and (tier != 'quick' or size[2] <= 3):
             cor.append(('RotatedSweepMatchDecoder', 'RotatedPlanar3DCode', list(size), 1, None, tier, True))
+            # one round of sweeps is all a single-qubit error needs
+            if size[2] >= 2:
+                cor.append(('RotatedSweepMatchDecoder', 'RotatedPlanar3DCode', list(size), 1, None, tier,
+                            {'max_rounds': 1 + (sum(size) % 2)}))
     return opt, cor
 
 
